@@ -197,6 +197,20 @@ def _value_matches(p, schema, m, ch, kw, v, params, fn) -> Tuple[bool, str]:
     if isinstance(v, ast.BoolOp) and isinstance(v.op, ast.Or):
         # `x or None`
         return _value_matches(p, schema, m, ch, kw, v.values[0], params, fn)
+    if isinstance(v, ast.IfExp):
+        # `<param> if <something else> else None`: the caller's value is withheld depending on another input
+        arms = [v.body, v.orelse]
+        nones = [a for a in arms if isinstance(a, ast.Constant) and a.value is None]
+        others = [a for a in arms if a not in nones]
+        if not ch.is_agg and len(nones) == 1 and len(others) == 1 and isinstance(others[0], ast.Name) and (others[0].id in params):
+            cond_names = {x.id for x in ast.walk(v.test) if isinstance(x, ast.Name)} - {others[0].id}
+            if cond_names & set(params):
+                return False, f"{m.name}.{kw} is given `{text(v)[:60]}`: the caller's {others[0].id} reaches the request only when {text(v.test)[:30]} holds - otherwise it is silently left out"
+        for a in arms:
+            ok_, why_ = _value_matches(p, schema, m, ch, kw, a, params, fn)
+            if not ok_:
+                return ok_, why_
+        return True, ""
     if isinstance(v, ast.Name):
         d = getattr(v, "_def", None)
         if v.id in params or (d is not None and d.kind == "param"):
